@@ -125,6 +125,8 @@ pub struct SeqCfg {
     pub need_flush_check: bool,
     /// ownership monitor at quiescent points
     pub ownership: bool,
+    /// record sync points (Flush directly followed by Fsync) with the acknowledged content
+    pub record_syncs: bool,
 }
 
 impl Default for SeqCfg {
@@ -142,6 +144,7 @@ impl Default for SeqCfg {
             release_check: true,
             need_flush_check: false,
             ownership: false,
+            record_syncs: false,
         }
     }
 }
@@ -436,6 +439,12 @@ pub struct SeqRun {
     /// host clusters (indices) released by discard
     pub discarded_hosts: std::collections::BTreeSet<u64>,
     pub truths: Vec<Option<Truth>>,
+    /// (event at invocation, event at return) of every executed op
+    pub op_events: Vec<(u64, u64)>,
+    /// sync points: (event after fsync_range returned, guest content acknowledged by then);
+    /// recorded when an Fsync op directly follows a successful Flush
+    pub sync_points: Vec<(u64, Vec<u8>)>,
+    pub final_params: Option<DevParams>,
 }
 
 fn cluster_tags(model: &Model, g: usize) -> Vec<String> {
@@ -485,6 +494,9 @@ pub fn run_seq(case: &SeqCase, cfg: &SeqCfg) -> SeqRun {
         replaced_comp_hosts: Default::default(),
         discarded_hosts: Default::default(),
         truths: vec![],
+        op_events: vec![],
+        sync_points: vec![],
+        final_params: None,
     };
     let layers = match build_layers(&case.layers) {
         Ok(l) => l,
@@ -586,8 +598,12 @@ fn run_seq_inner(case: &SeqCase, cfg: &SeqCfg, run: &mut SeqRun) -> Result<(), V
         ops.push(Op::Flush);
     }
 
+    let mut prev_flush_ok = false;
     for (i, op) in ops.iter().enumerate() {
         let bs = params.bs();
+        let ev_start = world.now();
+        let this_is_flush = matches!(op, Op::Flush);
+        let this_is_fsync = matches!(op, Op::Fsync);
         match op {
             Op::Write { off, len, pat } => {
                 let mut data = ABuf::new(*len, 0);
@@ -757,6 +773,12 @@ fn run_seq_inner(case: &SeqCase, cfg: &SeqCfg, run: &mut SeqRun) -> Result<(), V
             }
         }
         run.stats.ops_done = i + 1;
+        run.op_events.push((ev_start, world.now()));
+        if cfg.record_syncs && this_is_fsync && prev_flush_ok {
+            run.sync_points.push((world.now(), run.model.disk.clone()));
+        }
+        prev_flush_ok = this_is_flush;
+        run.final_params = Some(params.clone());
         // request-log monitors
         let bs = params.bs();
         log_monitors(&world, log_pos, bs, case.read_only, cfg.align, &mut run.stats).map_err(|v| v.at(i))?;
